@@ -209,6 +209,48 @@ def _run(job):
     return results, fresh, before == after, sorted(Tracer.calls)
 
 
+def _self_overwrite(job):
+    """a member whose output path IS the archive being read (extraction into the archive's own directory)"""
+    arcrel, member, how, tmp = job
+    import hashlib
+    import py7zr
+    d = tempfile.mkdtemp(dir=tmp)
+    arc = os.path.join(d, arcrel)
+    os.makedirs(os.path.dirname(arc), exist_ok=True)
+    with py7zr.SevenZipFile(arc, "w") as z:
+        z.writestr(b"first member " * 20, "first.txt")
+        z.writestr(b"this member is named like the archive " * 50, member)
+        z.writestr(b"last", "last.txt")
+    before = open(arc, "rb").read()
+    raised = None
+    old = os.getcwd()
+    try:
+        if how == "stream":
+            f = open(arc, "rb")
+            z = py7zr.SevenZipFile(f, "r")
+        else:
+            z = py7zr.SevenZipFile(arc, "r")
+        try:
+            if how == "cwd":
+                os.chdir(d)
+                z.extractall()
+            elif how == "targets":
+                z.extract(path=d, targets=[member])
+            else:
+                z.extractall(path=d)
+        finally:
+            os.chdir(old)
+            z.close()
+            if how == "stream":
+                f.close()
+    except Exception as e:  # noqa
+        raised = type(e).__name__
+    after = open(arc, "rb").read() if os.path.isfile(arc) else None
+    shutil.rmtree(d, ignore_errors=True)
+    return {"raised": raised, "unchanged": after == before, "before": len(before), "after": None if after is None else len(after),
+            "sha_before": hashlib.sha256(before).hexdigest()[:12]}
+
+
 def _verdicts(job):
     """damaged archive: run the call sequence, return the result of every call (verdicts as strings)"""
     data, mode, seq, tmp = job
@@ -340,6 +382,21 @@ def run(ctx):
             for s in extra:
                 jobs.append((arc, rng.choice(["path", "stream"]), s, "close", tmp))
                 meta.append(False)
+        # extraction into the archive's own directory of a member named like the archive
+        sjobs = [(arcrel, member, how, tmp) for arcrel, member in (("a.7z", "a.7z"), ("sub/x.7z", "sub/x.7z"), ("a.7z", "b/../a.7z"))
+                 for how in ("path", "stream", "cwd", "targets")]
+        for (arcrel, member, how, _), (st, val) in zip(sjobs, sandbox.pmap(_self_overwrite, sjobs, timeout=60)):
+            conf = {"archive_path": "<dir>/" + arcrel, "member": member, "extract_into": "<dir>", "how": how}
+            ctx.case(key=("self", arcrel, member, how), nontrivial=True, sample=conf)
+            if st != "ok":
+                if "ValueError" in str(val) or "rejected" in str(val):
+                    continue        # the writer refused the member name (C16): nothing to read
+                ctx.fail("C12:session_" + st, "a read session did not complete: %s" % str(val)[:200], conf)
+                continue
+            ctx.count("self-named-member", "%s/%s" % (how, val["raised"] or "returned"))
+            if not val["unchanged"]:
+                ctx.fail("C12:archive_modified", "extracting into the archive's own directory overwrote the archive with its member of the same name (%d -> %s bytes; the call %s)"
+                         % (val["before"], val["after"], "raised " + val["raised"] if val["raised"] else "returned"), dict(conf, result=val))
         res = sandbox.pmap(_run, jobs, timeout=60)
         lines, impl, classes, trans = [], [], [], []
         for (arc, mode, seq, ending, _), disc, (st, val) in zip(jobs, meta, res):
